@@ -7,9 +7,10 @@ and to the summary is built from `reduceStep` of exactly the counted links after
 resolution).
 -/
 import InToto.Proofs.PipeThresholds
+import InToto.Proofs.Pipeline
 
 namespace InToto.C05
-open InToto InToto.Verify InToto.PipeProofs
+open InToto InToto.Verify InToto.PipeProofs InToto.PipelineProofs InToto.Json InToto.Schema InToto.Metadata
 
 /-- C05: reduction succeeds only if ALL counted links report the materials and products of the
     reduced link (the one the rules and the summary then use). -/
@@ -42,5 +43,32 @@ theorem differing_products_example :
     let b : LinkView := { a with products := some [(lit% "f", some [(lit% "sha256", lit% "bb")])] }
     (reduceStep [(lit% "k1", a), (lit% "k2", b)]).isOk = false ∧ (reduceStep [(lit% "k2", b), (lit% "k1", a)]).isOk = false ∧
     (reduceStep [(lit% "k1", a), (lit% "k2", a)]).isOk = true := by decide
+
+/-- C05 AT PIPELINE LEVEL: whenever one level of verification accepts, the counted (and resolved)
+    links of EVERY step agree among themselves on materials and on products -/
+theorem acceptance_implies_agreement (W : World) (ln : Bool) (ci : List Str) (fuel : Nat) (md : Md)
+    (keys : List (Str × Key)) (dir : Dir) (sn : Str) (params : List (Str × Str)) (rd : RunDirState) (acc : Acc)
+    (s : Summary) (h : (verifyAux W ln ci (fuel + 1) md keys dir sn params rd acc).out = .ok s) :
+    ∃ lay ver res acc1, countedStage W lay dir = .ok ver ∧
+      resolveSteps (recOf W ln ci fuel) lay dir ver acc = (.ok res, acc1) ∧
+      ∀ sl ∈ res, ∃ lv, reduceStep sl.2 = .ok lv ∧
+        ∀ kv ∈ sl.2, kv.2.materials = lv.materials ∧ kv.2.products = lv.products := by
+  obtain ⟨lay, ver, res, acc1, _, hc, hr, hf⟩ := (verifyAux_ok_iff W ln ci fuel md keys dir sn params rd acc s).1 h
+  obtain ⟨_, red, _, hred, _⟩ := (finishStage_ok_iff W rd sn lay res acc1 s).1 hf
+  exact ⟨lay, ver, res, acc1, hc, hr, reduceAll_ok res red hred⟩
+
+/-- C05: two disagreeing counted links in ANY step fail the reduction of the whole layout -/
+theorem disagreement_in_any_step_fails (res : List (Step × List (Str × LinkView))) (sl : Step × List (Str × LinkView))
+    (a b : Str × LinkView) (hsl : sl ∈ res) (ha : a ∈ sl.2) (hb : b ∈ sl.2)
+    (hd : a.2.materials ≠ b.2.materials ∨ a.2.products ≠ b.2.products) :
+    (reduceAll res).isOk = false :=
+  reduceAll_disagree res sl a b hsl ha hb hd
+
+/-- C05 ("the agreed link is what the rules see"): with pairwise distinct step names the reduced map
+    holds for every step exactly its agreed link -/
+theorem rules_see_the_agreed_link (res : List (Step × List (Str × LinkView))) (red : List (Str × LinkView))
+    (h : reduceAll res = .ok red) (hn : (res.map fun sl => sl.1.name).Nodup) :
+    ∀ sl ∈ res, ∃ lv, reduceStep sl.2 = .ok lv ∧ lookup sl.1.name red = some lv :=
+  reduceAll_lookup res red h hn
 
 end InToto.C05
